@@ -3,92 +3,101 @@
    All statements are for every layer state (every kind, every field value), every value, every history length.
 
    [cfg] selects the code that is modelled: [fixed_cfg] = the tree with the three repairs of this property
-   (commits e50ee06, fc57e39, ee5faa2) and the constructor repair cc4d99c, [orig_cfg] = the tree before them.  Theorems quantified over [c] hold for
+   (commits e50ee06, fc57e39, ee5faa2), the constructor repair cc4d99c and the proposed c16_group_setting_lsdk, [orig_cfg] = the tree before them.  Theorems quantified over [c] hold for
    both; the [_refuted] theorems about [orig_cfg] document the original defects F-C16-1/2/3. *)
 From PsdV Require Import Base.Prelude Attrs.Model Attrs.Proofs.
 
 (* ---------------------------------------------------------------- 1. the getter shows the value at once *)
-(* get a (set a v s) = v, for every attribute, kind, value and configuration, under the exact guard *)
+(* get c a (set a v s) = v, for every attribute, kind, value and configuration, under the exact guard *)
 Theorem get_set : forall c a v s s',
-  set c a v s = AOk s' -> get_set_guard c a v s = true -> get a s' = v.
+  set c a v s = AOk s' -> get_set_guard c a v s = true -> get c a s' = v.
 Proof. exact Proofs.get_set. Qed.
 Print Assumptions get_set.
 
 (* the guard is exact: outside it an accepted edit is NOT shown by the getter *)
 Theorem get_set_exact : forall c a v s s',
-  set c a v s = AOk s' -> get_set_guard c a v s = false -> get a s' <> v.
+  set c a v s = AOk s' -> get_set_guard c a v s = false -> get c a s' <> v.
 Proof. exact Proofs.get_set_exact. Qed.
 Print Assumptions get_set_exact.
 
 (* with the repairs the guard is: a group object has its divider block (true of every group the library builds) *)
 Theorem get_set_fixed : forall a v s s',
-  divider_ok s = true -> set fixed_cfg a v s = AOk s' -> get a s' = v.
+  divider_ok fixed_cfg s = true -> set fixed_cfg a v s = AOk s' -> get fixed_cfg a s' = v.
 Proof. intros a v s s' D H. eapply Proofs.get_set; [exact H|apply Proofs.guard_fixed; exact D]. Qed.
 Print Assumptions get_set_fixed.
 
 Definition ex_pixel : layer := new_pixel orig_cfg false [76; 97] 2 3 4 3 0 0 77.
 Definition ex_group : layer := new_group fixed_cfg [71] true 5.
 Definition ex_fill : layer :=
-  mkLayer KFill true [70] (Some [70]) false true 8 255 bm_norm false 0 0 0 0 None (Some 0) (Some 171) 32 32 box0 true 9.
+  mkLayer KFill true [70] (Some [70]) false true 8 255 bm_norm false 0 0 0 0 None (Some 0) (Some 171) 32 32 box0 true 9 None.
 Definition ex_group_content : layer :=
   mkLayer KGroup true [71] (Some [71]) false true 8 255 bm_norm false 0 0 0 0
-    (Some (mkSdiv 1 true (Some bm_pass) None)) (Some 0) None 100 200 (25, 24, 66, 98) true 1.
-Definition ex_group_lsdk : layer :=     (* a group whose divider sits under 'lsdk': Group._setting is None *)
-  mkLayer KGroup true [71] (Some [71]) false true 8 255 bm_norm false 0 0 0 0 None (Some 0) None 100 200 box0 true 1.
+    (Some (mkSdiv 1 true (Some bm_pass) None)) (Some 0) None 100 200 (25, 24, 66, 98) true 1 None.
+Definition ex_group_lsdk : layer :=     (* a group whose divider sits under 'lsdk' only *)
+  mkLayer KGroup true [71] (Some [71]) false true 8 255 bm_norm false 0 0 0 0 None (Some 0) None 100 200 box0 true 1
+    (Some (mkSdiv 1 true (Some bm_pass) None)).
+Definition lsdk_orig_cfg : cfg := mkCfg true true true false true.   (* the tree before c16_group_setting_lsdk *)
 
 Example get_set_hyp :
   set fixed_cfg ALock (VInt 5) ex_pixel = AOk (with_lspf ex_pixel (Some 5)) /\
-  get_set_guard fixed_cfg ALock (VInt 5) ex_pixel = true /\ divider_ok ex_pixel = true.
+  get_set_guard fixed_cfg ALock (VInt 5) ex_pixel = true /\ divider_ok fixed_cfg ex_pixel = true.
 Proof. repeat split. Qed.
 Example get_set_group_hyp :
-  divider_ok ex_group = true /\ exists s', set fixed_cfg ABlend (VInt 1836411936) ex_group = AOk s'.
+  divider_ok fixed_cfg ex_group = true /\ exists s', set fixed_cfg ABlend (VInt 1836411936) ex_group = AOk s'.
 Proof. split; [reflexivity|eexists; reflexivity]. Qed.
 
 (* F-C16-2 (original code): lock(flags) on a layer without a protection block stores 0 *)
 Theorem lock_without_block_refuted : exists s v s',
-  set orig_cfg ALock v s = AOk s' /\ get ALock s' <> v.
+  set orig_cfg ALock v s = AOk s' /\ get orig_cfg ALock s' <> v.
 Proof. exists ex_pixel, (VInt 4), (with_lspf ex_pixel (Some 0)). split; [reflexivity|discriminate]. Qed.
 Print Assumptions lock_without_block_refuted.
 
 (* F-C16-3 (original code): clipping_layer = True on a layer without a document is ignored *)
 Theorem clipping_detached_refuted : exists s v s',
-  set orig_cfg AClip v s = AOk s' /\ get AClip s' <> v.
+  set orig_cfg AClip v s = AOk s' /\ get orig_cfg AClip s' <> v.
 Proof. exists ex_pixel, (VBool true), ex_pixel. split; [reflexivity|discriminate]. Qed.
 Print Assumptions clipping_detached_refuted.
 
-(* F-C16-5 (current code): a group without an 'lsct' block reads NORMAL after blend_mode = PASS_THROUGH *)
+(* F-C16-5 (code before c16_group_setting_lsdk): a group whose divider sits only under 'lsdk' reads NORMAL
+   after blend_mode = PASS_THROUGH *)
 Theorem get_set_blend_refuted : exists s s',
-  set fixed_cfg ABlend (VInt bm_pass) s = AOk s' /\ get ABlend s' = VInt bm_norm.
+  set lsdk_orig_cfg ABlend (VInt bm_pass) s = AOk s' /\ get lsdk_orig_cfg ABlend s' = VInt bm_norm.
 Proof. exists ex_group_lsdk. eexists. split; reflexivity. Qed.
 Print Assumptions get_set_blend_refuted.
 
+(* ... with the repair the same group is covered by get_set_fixed *)
+Theorem lsdk_group_fixed : divider_ok fixed_cfg ex_group_lsdk = true /\ divider_ok lsdk_orig_cfg ex_group_lsdk = false /\
+  exists s', set fixed_cfg ABlend (VInt bm_pass) ex_group_lsdk = AOk s' /\ get fixed_cfg ABlend s' = VInt bm_pass.
+Proof. split; [reflexivity|]. split; [reflexivity|]. eexists. split; reflexivity. Qed.
+Print Assumptions lsdk_group_fixed.
+
 (* F-C16-1 (original code): the blend mode of a group made by Group.new reads None ... *)
-Theorem new_group_blend_refuted : forall n o p, get ABlend (new_group orig_cfg n o p) = VNone.
+Theorem new_group_blend_refuted : forall n o p, get orig_cfg ABlend (new_group orig_cfg n o p) = VNone.
 Proof. reflexivity. Qed.
 Print Assumptions new_group_blend_refuted.
 
 (* ... while the repaired constructor gives PASS_THROUGH and a divider that is written *)
 Theorem new_group_fixed : forall n o p,
-  divider_ok (new_group fixed_cfg n o p) = true /\ divider_signed (new_group fixed_cfg n o p) = true /\
-  get ABlend (new_group fixed_cfg n o p) = VInt bm_pass.
+  divider_ok fixed_cfg (new_group fixed_cfg n o p) = true /\ divider_signed fixed_cfg (new_group fixed_cfg n o p) = true /\
+  get fixed_cfg ABlend (new_group fixed_cfg n o p) = VInt bm_pass.
 Proof. exact Proofs.new_group_fixed. Qed.
 Print Assumptions new_group_fixed.
 
 Theorem new_pixel_ok : forall c att n t l w h dw dh p,
-  divider_ok (new_pixel c att n t l w h dw dh p) = true /\ divider_signed (new_pixel c att n t l w h dw dh p) = true.
+  divider_ok c (new_pixel c att n t l w h dw dh p) = true /\ divider_signed c (new_pixel c att n t l w h dw dh p) = true.
 Proof. exact Proofs.new_pixel_ok. Qed.
 Print Assumptions new_pixel_ok.
 
 (* since /repo commit cc4d99c a layer created with ANY name shorter than 256 characters reads that name and has a
    record name that save can write (F-C19-3 before: the raw name went into the record) *)
 Theorem new_group_name_writable : forall n o p, Z.of_nat (length n) < 256 ->
-  name_writable (new_group fixed_cfg n o p) = true /\ get AName (new_group fixed_cfg n o p) = VStr n.
+  name_writable (new_group fixed_cfg n o p) = true /\ get fixed_cfg AName (new_group fixed_cfg n o p) = VStr n.
 Proof. exact Proofs.new_group_name_writable. Qed.
 Print Assumptions new_group_name_writable.
 
 Theorem new_pixel_name_writable : forall att n t l w h dw dh p, Z.of_nat (length n) < 256 ->
   name_writable (new_pixel fixed_cfg att n t l w h dw dh p) = true /\
-  get AName (new_pixel fixed_cfg att n t l w h dw dh p) = VStr n.
+  get fixed_cfg AName (new_pixel fixed_cfg att n t l w h dw dh p) = VStr n.
 Proof. exact Proofs.new_pixel_name_writable. Qed.
 Print Assumptions new_pixel_name_writable.
 
@@ -126,7 +135,7 @@ Print Assumptions name_record_fallback.
 (* ---------------------------------------------------------------- 3. frame *)
 (* an edit of attribute a leaves every other attribute's getter alone ... *)
 Theorem frame : forall c a b v s s',
-  a <> b -> set c a v s = AOk s' -> frame_guard a b s = true -> get b s' = get b s.
+  a <> b -> set c a v s = AOk s' -> frame_guard a b s = true -> get c b s' = get c b s.
 Proof. exact Proofs.frame. Qed.
 Print Assumptions frame.
 Example frame_hyp : AOpacity <> ALeft /\ frame_guard AOpacity ALeft ex_group_content = true /\
@@ -142,7 +151,7 @@ Print Assumptions set_preserves.
    (GroupMixin.bbox / Group.extract_bbox), so hiding the group moves them to 0.  By design, not a finding;
    replayed on group.psd by the harness (oracle kind "frame" skips exactly this). *)
 Theorem frame_refuted : exists s s',
-  set fixed_cfg AVisible (VBool false) s = AOk s' /\ get ALeft s' <> get ALeft s.
+  set fixed_cfg AVisible (VBool false) s = AOk s' /\ get fixed_cfg ALeft s' <> get fixed_cfg ALeft s.
 Proof. exists ex_group_content. eexists. split; [reflexivity|discriminate]. Qed.
 Print Assumptions frame_refuted.
 
@@ -183,13 +192,13 @@ Print Assumptions move_size_exact.
 (* an edit that raises changes nothing (definition of [step]); accepted edits compose: after ANY sequence of
    edits every getter shows the last accepted value of its attribute, or its initial value *)
 Theorem history_fixed : forall a l s,
-  divider_ok s = true -> derived_pos (l_kind s) a = false ->
-  get a (run_sets fixed_cfg l s) = lastval (l_kind s) a l (get a s).
+  divider_ok fixed_cfg s = true -> derived_pos (l_kind s) a = false ->
+  get fixed_cfg a (run_sets fixed_cfg l s) = lastval (l_kind s) a l (get fixed_cfg a s).
 Proof. exact Proofs.history_fixed. Qed.
 Print Assumptions history_fixed.
 Example history_hyp :
-  divider_ok ex_group = true /\ derived_pos (l_kind ex_group) ABlend = false /\
-  get ABlend (run_sets fixed_cfg [(ABlend, VInt 1836411936); (AName, VStr [1; 2]); (ABlend, VInt 7); (ALeft, VInt 3)] ex_group)
+  divider_ok fixed_cfg ex_group = true /\ derived_pos (l_kind ex_group) ABlend = false /\
+  get fixed_cfg ABlend (run_sets fixed_cfg [(ABlend, VInt 1836411936); (AName, VStr [1; 2]); (ABlend, VInt 7); (ALeft, VInt 3)] ex_group)
   = VInt 1836411936.
 Proof. repeat split. Qed.
 
@@ -199,7 +208,7 @@ Theorem history : forall c a l s,
   (forall s1 s2 b v, set c b v s1 = AOk s2 ->
      (forall b' v', get_set_guard c b' v' s1 = true) -> (forall b' v', get_set_guard c b' v' s2 = true)) ->
   derived_pos (l_kind s) a = false ->
-  get a (run_sets c l s) = lastval (l_kind s) a l (get a s).
+  get c a (run_sets c l s) = lastval (l_kind s) a l (get c a s).
 Proof. exact Proofs.history. Qed.
 Print Assumptions history.
 
@@ -226,20 +235,20 @@ Proof. exact Proofs.reopen_error. Qed.
 Print Assumptions reopen_raises.
 
 (* every getter reads the same after save + open *)
-Theorem persist_get : forall save_open, save_open_assumption save_open -> forall a s,
-  writable s = true -> persist_get_guard a s = true ->
-  exists s', save_open s = AOk s' /\ get a s' = get a s.
+Theorem persist_get : forall save_open, save_open_assumption save_open -> forall c a s,
+  writable s = true -> persist_get_guard c a s = true ->
+  exists s', save_open s = AOk s' /\ get c a s' = get c a s.
 Proof. exact Proofs.persist_get. Qed.
 Print Assumptions persist_get.
 Example persist_get_hyp :
-  writable ex_group_content = true /\ forall a, persist_get_guard a ex_group_content = true.
+  writable ex_group_content = true /\ forall a, persist_get_guard fixed_cfg a ex_group_content = true.
 Proof. split; [reflexivity|intros []; reflexivity]. Qed.
 
 (* a value set through the API reads back after save + open *)
 Theorem persist_set : forall save_open, save_open_assumption save_open -> forall c a v s s1,
   set c a v s = AOk s1 -> get_set_guard c a v s = true -> persist_set_guard c a v s = true ->
   writable s1 = true ->
-  exists s2, save_open s1 = AOk s2 /\ get a s2 = v.
+  exists s2, save_open s1 = AOk s2 /\ get c a s2 = v.
 Proof. exact Proofs.persist_set. Qed.
 Print Assumptions persist_set.
 Example persist_set_hyp :
@@ -282,24 +291,24 @@ Print Assumptions utf16_pair_refuted.
 
 (* F-C16-1 (original code): a blend mode set on a new group is lost by save + open *)
 Theorem persist_blend_refuted : exists v s1 s2,
-  set orig_cfg ABlend v (new_group orig_cfg [71] true 5) = AOk s1 /\ get ABlend s1 = v /\
-  reopen (attach 16 12 true s1) = AOk s2 /\ get ABlend s2 = VNone.
+  set orig_cfg ABlend v (new_group orig_cfg [71] true 5) = AOk s1 /\ get orig_cfg ABlend s1 = v /\
+  reopen (attach 16 12 true s1) = AOk s2 /\ get orig_cfg ABlend s2 = VNone.
 Proof. exists (VInt 1836411936). eexists. eexists. repeat split. Qed.
 Print Assumptions persist_blend_refuted.
 
 (* the whole property for histories: any sequence of edits, then save + open *)
 Theorem history_persist : forall save_open, save_open_assumption save_open -> forall a l s,
-  divider_ok s = true -> divider_signed s = true -> derived_pos (l_kind s) a = false ->
+  divider_ok fixed_cfg s = true -> divider_signed fixed_cfg s = true -> derived_pos (l_kind s) a = false ->
   writable (run_sets fixed_cfg l s) = true ->
-  (a = AName -> persist_get_guard AName (run_sets fixed_cfg l s) = true) ->
+  (a = AName -> persist_get_guard fixed_cfg AName (run_sets fixed_cfg l s) = true) ->
   exists s', save_open (run_sets fixed_cfg l s) = AOk s' /\
-             get a s' = lastval (l_kind s) a l (get a s) /\ l_pixels s' = l_pixels s.
+             get fixed_cfg a s' = lastval (l_kind s) a l (get fixed_cfg a s) /\ l_pixels s' = l_pixels s.
 Proof. exact Proofs.history_persist. Qed.
 Print Assumptions history_persist.
 Example history_persist_hyp :
   let l := [(ALock, VInt 5); (AName, VStr [1048; 128512]); (ALeft, VInt (-7)); (AOpacity, VInt 300)] in
-  divider_ok ex_pixel = true /\ divider_signed ex_pixel = true /\
+  divider_ok fixed_cfg ex_pixel = true /\ divider_signed fixed_cfg ex_pixel = true /\
   writable (run_sets fixed_cfg l ex_pixel) = true /\
-  persist_get_guard AName (run_sets fixed_cfg l ex_pixel) = true /\
+  persist_get_guard fixed_cfg AName (run_sets fixed_cfg l ex_pixel) = true /\
   lastval KPixel AOpacity l (VInt 255) = VInt 255 /\ lastval KPixel ALock l VNone = VInt 5.
 Proof. repeat split. Qed.
